@@ -1044,6 +1044,92 @@ fn short_edge_for_width(inp: &StrokeInput, base_width: f32) -> bool {
     false
 }
 
+/// largest coordinate magnitude of the input (on-curve and control points)
+fn max_coordinate(inp: &StrokeInput) -> f32 {
+    let mut m = 0.0f32;
+    let mut up = |p: Point| m = m.max(p.x.abs()).max(p.y.abs());
+    for s in &inp.subs {
+        up(s.start);
+        for g in &s.segs {
+            match g {
+                Seg::Line(p) => up(*p),
+                Seg::Quad(c, p) => {
+                    up(*c);
+                    up(*p)
+                }
+                Seg::Cubic(c1, c2, p) => {
+                    up(*c1);
+                    up(*c2);
+                    up(*p)
+                }
+            }
+        }
+    }
+    m
+}
+
+/// witness class of finding C05-miter-clip-unscaled-fallback, computed from the input and the options:
+/// fixed width, `LineJoin::MiterClip`, and a half width below the resolution of the arithmetic -
+/// (a) below one float step of the largest coordinate (`half_width < f32::EPSILON x max |coordinate|`):
+/// the side points `join +- perp(tangent) x half_width` can round onto the join position, and
+/// `get_clip_intersections` is handed `side_point - join = 0` as a line direction; or
+/// (b) `half_width x sqrt(4 x miter_limit^2 - 1) <= 1e-8`: the determinant of the two lines is below
+/// lyon_geom's f64 `EPSILON`.  In both cases `Line::intersection` answers `None` and the code falls
+/// back to the UNSCALED miter normal (`normal.to_point()`): a point `1 / cos(turn / 2) >= 2 x miter_limit`
+/// UNITS (not half widths) away from the join
+fn miter_clip_below_resolution(inp: &StrokeInput, o: &StrokeOptions) -> bool {
+    let l = o.miter_limit as f64;
+    let hw = o.line_width as f64 * 0.5;
+    o.variable_line_width.is_none()
+        && o.line_join == LineJoin::MiterClip
+        && (hw < f32::EPSILON as f64 * max_coordinate(inp) as f64 || hw * (4.0 * l * l - 1.0).max(0.0).sqrt() <= 1.0e-8 * 1.01)
+}
+
+// line widths around and below the float resolution of the path's coordinates (paths of ordinary size,
+// half widths of 0.03 .. 100 float steps of the largest coordinate): the end-to-end oracle of the `stroke`
+// family on fixed-width strokes
+fn tinyw_case(ctx: &mut Ctx) {
+    ctx.case("tinyw", |rng| {
+        let tol = match rng.below(3) {
+            0 => 10f64.powf(rng.uniform(-3.0, -1.5)),
+            _ => rng.uniform(0.02, 0.4),
+        } as f32;
+        let limit = *rng.pick(&[1.0f32, 1.2, 2.0, 4.0, 4.0, 10.0]);
+        let join = if rng.chance(2, 3) { LineJoin::MiterClip } else { gen_join_kind(rng) };
+        let (sc, ec) = (gen_cap(rng), gen_cap(rng));
+        let entry = rng.below(5) as usize;
+        let n_attr = if entry == 4 { rng.range(1, 3) as usize } else if entry == 0 || entry == 2 { rng.below(3) as usize } else { 0 };
+        let inp = gen_stroke_input(rng, 1.0, 1e-8);
+        let width = ((max_coordinate(&inp) as f64).max(1e-3) * f32::EPSILON as f64 * 10f64.powf(rng.uniform(-1.2, 2.3))) as f32;
+        let options = StrokeOptions::tolerance(tol).with_line_width(width).with_line_join(join).with_start_cap(sc).with_end_cap(ec).with_miter_limit(limit);
+        let extra = [rng.uniform(-5.0, 5.0) as f32, rng.uniform(-5.0, 5.0) as f32];
+        let mut args = Out::new();
+        args.t(ENTRY[entry]).t(join_name(join)).t(cap_name(sc)).t(cap_name(ec)).f(width).f(tol).f(limit).b(false).u(n_attr as u64);
+        for s in &inp.subs {
+            args.t("M").p(s.start).f(s.w[0]);
+            for (k, g) in s.segs.iter().enumerate() {
+                match g {
+                    Seg::Line(p) => args.t("L").p(*p),
+                    Seg::Quad(c, p) => args.t("Q").p(*c).p(*p),
+                    Seg::Cubic(c1, c2, p) => args.t("C").p(*c1).p(*c2).p(*p),
+                };
+                args.f(s.w[k + 1]);
+            }
+            args.t(if s.close { "Z" } else { "E" });
+        }
+        let tag = format!(
+            "tinyw {} {} {}/{} fixed {}{}",
+            ENTRY[entry],
+            join_name(join),
+            cap_name(sc),
+            cap_name(ec),
+            inp.kind,
+            if miter_clip_below_resolution(&inp, &options) { " below-resolution" } else { "" }
+        );
+        (args, tag, move || run_stroke(&inp, &options, entry, n_attr, &extra))
+    });
+}
+
 fn stroke_case(ctx: &mut Ctx) {
     ctx.case("stroke", |rng| {
         let width = match rng.below(8) {
@@ -1195,7 +1281,13 @@ fn run_stroke(inp: &StrokeInput, options: &StrokeOptions, entry: usize, n_attr: 
     let n_curves = inp.subs.iter().flat_map(|s| s.segs.iter()).filter(|g| !matches!(g, Seg::Line(_))).count();
     let measure = std::env::var("C05_MEASURE").is_ok();
     let thr = (options.tolerance * options.tolerance * 0.5).min(options.line_width * options.line_width * 0.05).max(1e-8f32);
-    let reach_class = if variable && short_edge_for_width(inp, options.line_width) { "variable-width-short-edge" } else { "generic" };
+    let reach_class = if variable && short_edge_for_width(inp, options.line_width) {
+        "variable-width-short-edge"
+    } else if miter_clip_below_resolution(inp, options) {
+        "miter-clip-width-below-resolution"
+    } else {
+        "generic"
+    };
     let nan_class = if variable && !inp.polyline { "variable-width-curve" } else { "generic" };
 
     for t in mesh.indices.chunks(3) {
@@ -1306,7 +1398,10 @@ fn run_stroke(inp: &StrokeInput, options: &StrokeOptions, entry: usize, n_attr: 
                     } else if s.close {
                         adj(n - 1, 0);
                     }
-                    let slack = 1e-3 * (1.0 + (v.normal.x as f64).hypot(v.normal.y as f64));
+                    // rounding: `position` is rounded to the float grid of the path's coordinates, so the normal
+                    // read back from it carries an absolute error of about one float step / half width
+                    // (negligible unless the half width is within a few thousand float steps of the coordinates)
+                    let slack = 1e-3 * (1.0 + (v.normal.x as f64).hypot(v.normal.y as f64)) + 2.0 * f32::EPSILON as f64 * scale / (options.line_width as f64 * 0.5).max(1e-300);
                     let ok = match v.side {
                         Side::Positive => dots.iter().any(|d| *d >= -slack),
                         Side::Negative => dots.iter().any(|d| *d <= slack),
@@ -1966,6 +2061,9 @@ fn main() {
     }
     for _ in 0..ctx.n(5000, 200000) {
         fulle_case(&mut ctx);
+    }
+    for _ in 0..ctx.n(400, 10000) {
+        tinyw_case(&mut ctx);
     }
     ctx.finish();
 }
